@@ -3,7 +3,8 @@
    for ANY sequence of delivered lines (any combination of altered, dropped, duplicated,
    inserted or truncated bytes yields SOME sequence of lines, or an unparsable one, which
    is [LOther]).  MD5 is the abstract function H; the two digest hypotheses are premises. *)
-From Trzsz Require Import Base.Bytes Model.Protocol Proofs.Protocol.
+From Trzsz Require Import Base.Bytes Model.Path Model.Fs Model.Names Model.Transfer Model.Protocol Model.FaultTie Proofs.Protocol Proofs.FaultTie Proofs.FaultTieFs Proofs.FaultTieSender.
+From Trzsz Require Model.Resume Model.FaultResume Proofs.Resume Proofs.FaultResume.
 From Coq Require Import ZArith.
 
 Section C02.
@@ -11,14 +12,31 @@ Variable digest : Type.
 Variable H : list byte -> digest.
 Variable deq : digest -> digest -> bool.
 Hypothesis deq_spec : forall a b, deq a b = true <-> a = b.
-Variable decode decode1 : list byte -> option (list byte).
+Variable decode : list (list byte) -> option (list byte).
+Variable decode1 : list byte -> option (list byte).
 
-(* receiver, protocol >= 2: acceptance implies exact size, decodable stream, matching digest *)
+(* receiver, protocol >= 2.  [early] is the schedule of the receiving pipeline (None = pipelineSaveData's
+   step = size check decides; Some k = pipelineSendAck, which reports completion as soon as the saved step
+   EQUALS the announced size, is first and k bytes have reached the file by then).  Since fix d144b66 the
+   ctx.succ branch of recvFileDataV2 waits for the saver's verdict (read from the source:
+   Consts.c02_succ_waits_saver), so the schedule no longer matters: for EVERY schedule, acceptance implies
+   that the stream decodes to exactly what the file holds, has exactly the announced size, and that the
+   MD5 line is its digest. *)
+Variable early : option nat.
 Theorem C02_receiver_sound_v2 : forall ls size acc w,
-  recv_v2 digest H deq decode size acc ls = Accept w ->
+  recv_v2 digest H deq decode early size acc ls = Accept w ->
   decode (acc ++ frames_of digest ls) = Some w /\ Z.of_nat (length w) = size
   /\ md5_of digest ls = Some (H w).
-Proof. exact (recv_v2_sound digest H deq deq_spec decode). Qed.
+Proof. exact (recv_v2_sound digest H deq deq_spec decode early). Qed.
+
+(* the code before d144b66 ([recv_v2_old]): both outcomes of the race *)
+Theorem C02_receiver_sound_v2_old : forall ls size acc written,
+  recv_v2_old digest H deq decode early size acc ls = Accept written ->
+  exists w, decode (acc ++ frames_of digest ls) = Some w /\ md5_of digest ls = Some (H w) /\
+    ((written = w /\ Z.of_nat (length w) = size) \/
+     (exists k, early = Some k /\ written = firstn k w /\
+                (0 <= size < Z.of_nat (length w))%Z /\ (size <= Z.of_nat k)%Z /\ (k <= length w)%nat)).
+Proof. exact (recv_v2_sched_sound digest H deq deq_spec decode early). Qed.
 
 (* receiver, protocol 1: acceptance implies matching digest; the size is only a lower bound
    (the legacy loop does not re-check it) *)
@@ -28,12 +46,28 @@ Theorem C02_receiver_sound_v1 : forall fuel ls size w0 w,
             /\ exists tail, w = w0 ++ tail.
 Proof. exact (recv_v1_sound digest H deq deq_spec decode1). Qed.
 
-(* no silent corruption for every delivered line sequence *)
-Theorem C02_no_silent_v2 : forall ls size src w,
-  recv_v2 digest H deq decode size [] ls = Accept w ->
+(* no silent corruption, protocol >= 2: for every delivered line sequence AND every schedule.
+   (For the code before d144b66 the statement is false: C02_no_silent_v2_old_refuted below; what held
+   there were the two partial statements C02_no_silent_v2_old_no_race / _old_true_size.) *)
+Theorem C02_no_silent_v2_full : forall ls size src w,
+  recv_v2 digest H deq decode early size [] ls = Accept w ->
   (forall d, md5_of digest ls = Some d -> unforged digest H src w d) ->
   collision_free_on digest H src w -> w = src.
-Proof. exact (recv_v2_no_silent digest H deq deq_spec decode). Qed.
+Proof. exact (recv_v2_no_silent digest H deq deq_spec decode early). Qed.
+
+Theorem C02_no_silent_v2_old_no_race : forall ls size src w,
+  early = None ->
+  recv_v2_old digest H deq decode early size [] ls = Accept w ->
+  (forall d, md5_of digest ls = Some d -> unforged digest H src w d) ->
+  collision_free_on digest H src w -> w = src.
+Proof. exact (recv_v2_sched_no_silent_no_race digest H deq deq_spec decode early). Qed.
+
+Theorem C02_no_silent_v2_old_true_size : forall ls size src written,
+  size = Z.of_nat (length src) ->
+  recv_v2_old digest H deq decode early size [] ls = Accept written ->
+  (forall w d, decode (frames_of digest ls) = Some w -> md5_of digest ls = Some d -> unforged digest H src w d) ->
+  (forall w, decode (frames_of digest ls) = Some w -> collision_free_on digest H src w) -> written = src.
+Proof. exact (recv_v2_sched_no_silent_true_size digest H deq deq_spec decode early). Qed.
 
 Theorem C02_no_silent_v1 : forall fuel ls size src w,
   recv_v1 digest H deq decode1 fuel size [] ls = Accept w ->
@@ -43,33 +77,251 @@ Proof. exact (recv_v1_no_silent digest H deq deq_spec decode1). Qed.
 
 (* sender: success only after matching per-frame acks, a final ack with step = size and an
    echoed digest equal to its own *)
-Theorem C02_sender_sound : forall sent as_ size mine,
+Theorem C02_sender_sound : forall as_ sent size mine,
   send_v2 digest deq size mine sent as_ = true ->
-  exists facks rest, as_ = facks ++ rest /\ length facks = length sent
-    /\ Forall2 (fun a n => exists s, a = AFrame digest n s) facks sent
+  exists facks rest, as_ = facks ++ rest
+    /\ Forall2 (fun a n => exists s, a = AFrame digest n s) (filter (fun a => negb (is_keep digest a)) facks) sent
     /\ send_final digest deq size mine rest = true.
 Proof. exact (send_v2_sound digest deq). Qed.
 
 Theorem C02_sender_final : forall as_ size mine, send_final digest deq size mine as_ = true ->
   exists pre d rest, as_ = pre ++ AFinal digest size :: ADigest digest d :: rest /\ d = mine
-    /\ Forall (fun a => exists s, a = AFinal digest s /\ (s < size)%Z) pre.
+    /\ Forall (fun a => a = AKeep digest \/ exists s, a = AFinal digest s /\ (s < size)%Z) pre.
 Proof. exact (send_final_sound digest deq deq_spec). Qed.
+
+(* sender, protocol 1: success only after every chunk was acknowledged by exactly its length,
+   in order, followed by an echoed digest equal to its own *)
+Theorem C02_sender_sound_v1 : forall sent as_ mine, send_v1 digest deq mine sent as_ = true ->
+  exists d rest, as_ = map (AFinal digest) sent ++ ADigest digest d :: rest /\ d = mine.
+Proof. exact (send_v1_sound digest deq deq_spec). Qed.
+
+(* ------------------------------------------------------------------------------------------
+   The whole-transfer receiver (Model/Transfer.v, the machine of C01) under ANY delivered
+   message sequence.  [ft_receive] folds [tr_receiver] over the list and records one [ft_saved]
+   per MD5 message the machine answers with SUCC:<digest> (= per file it reports as saved);
+   the recording does not influence the machine. *)
+Variable zdecomp unzl : list byte -> option (list byte).
+(* the abstract external functions of the two sub-protocols composed into Model/Transfer.v: the prefix
+   digest of the resume exchange, the header coding of archive entries (nothing is assumed of them) *)
+Variable hx : list byte -> Resume.digest.
+Variable ahdr : src -> Z -> list byte.
+Variable aparse : list byte -> option (src * Z).
+
+Theorem C02_transfer_ghost_transparent : forall c dest ms st g,
+  ft_feed digest H deq zdecomp unzl hx aparse c dest st ms =
+    (fst (fst (ft_run digest H deq zdecomp unzl hx aparse c dest st g ms)), snd (fst (ft_run digest H deq zdecomp unzl hx aparse c dest st g ms))).
+Proof. exact (ft_run_feed digest H deq zdecomp unzl hx aparse). Qed.
+
+(* SUCC:<digest> is only ever written in answer to an MD5 message, in the phase that waits for
+   it, when the delivered value equals the digest of what was written *)
+Theorem C02_transfer_answer_only_md5 : forall c dest st m x,
+  In (TrSuccDigest digest x) (snd (tr_receiver digest H deq zdecomp unzl hx aparse c dest st m)) ->
+  exists p w d, rs_phase st = RpMd5 p w /\ m = TrMd5 digest d /\ deq d (H w) = true /\ x = H w.
+Proof. exact (ft_digest_answer digest H deq zdecomp unzl hx aparse). Qed.
+
+(* the bridging lemma: per-file acceptance by the whole-transfer machine IS acceptance by the
+   per-file decision model (recv_v2 for protocol >= 2, recv_v1 for protocol 1) of exactly the
+   messages delivered for that file, with exactly the bytes the machine wrote *)
+Theorem C02_transfer_bridge : forall c dest f0 sch ms sv,
+  In sv (snd (ft_receive digest H deq zdecomp unzl hx aparse c dest f0 sch ms)) ->
+  rs_phase (fv_before digest sv) = RpMd5 (fv_payload digest sv) (fv_content digest sv) /\
+  fst (tr_receiver digest H deq zdecomp unzl hx aparse c dest (fv_before digest sv) (TrMd5 digest (fv_md5 digest sv))) = fv_after digest sv /\
+  In (TrSuccDigest digest (H (fv_content digest sv)))
+     (snd (tr_receiver digest H deq zdecomp unzl hx aparse c dest (fv_before digest sv) (TrMd5 digest (fv_md5 digest sv)))) /\
+  ft_verdict digest H deq zdecomp unzl c sv = Accept (fv_content digest sv).
+Proof. exact (ft_receive_bridge digest H deq zdecomp unzl hx aparse). Qed.
+
+Theorem C02_transfer_receiver_sound : forall c dest f0 sch ms sv,
+  In sv (snd (ft_receive digest H deq zdecomp unzl hx aparse c dest f0 sch ms)) ->
+  fv_md5 digest sv = H (fv_content digest sv) /\
+  (tr_pipeline c = true -> tr_blen (fv_content digest sv) = fv_size digest sv) /\
+  (tr_pipeline c = false -> (fv_size digest sv <= tr_blen (fv_content digest sv))%N).
+Proof. exact (ft_saved_sound digest H deq deq_spec zdecomp unzl hx aparse). Qed.
+
+(* ... and right after the answer the (abstract) file system holds exactly these bytes at the place of
+   the file: destination / local name / rest of the relative path - for a file written whole; for a
+   RESUMED file (the receiver still holds the existing file, cut at its matchStep: [rs_open]) it holds the
+   kept part followed by exactly these bytes.  (An archive's "file" is the entry stream; what its writer
+   makes of an accepted stream is C15's subject.) *)
+Theorem C02_transfer_saved_on_fs : forall c dest f0 sch ms sv,
+  In sv (snd (ft_receive digest H deq zdecomp unzl hx aparse c dest f0 sch ms)) ->
+  (rs_open (fv_before digest sv) = None -> tr_p_archive (fv_payload digest sv) = false ->
+   exists ln, ft_leaf digest c dest sv = Some (dest ++ ln :: tr_p_tail (fv_payload digest sv)) /\
+     lookup (st_fs (rs_st (fv_after digest sv))) (dest ++ ln :: tr_p_tail (fv_payload digest sv)) = Some (File (fv_content digest sv))) /\
+  (forall leaf f rest, rs_open (fv_before digest sv) = Some (leaf, f, rest) ->
+     lookup (st_fs (rs_st (fv_after digest sv))) leaf = Some (File (Resume.f_data (Resume.f_write f (fv_content digest sv))))).
+Proof. exact (ft_receive_saved_on_fs digest H deq zdecomp unzl hx aparse). Qed.
+
+(* C02 for the whole transfer: whatever sequence of messages is delivered, every file the
+   receiver reports as saved has digest = the delivered MD5 value and (protocol >= 2) the
+   announced size; hence, under the two digest hypotheses, it equals the source *)
+Theorem C02_transfer_no_silent : forall c dest f0 sch ms sv src,
+  In sv (snd (ft_receive digest H deq zdecomp unzl hx aparse c dest f0 sch ms)) ->
+  unforged digest H src (fv_content digest sv) (fv_md5 digest sv) ->
+  collision_free_on digest H src (fv_content digest sv) ->
+  fv_content digest sv = src.
+Proof. exact (ft_no_silent digest H deq deq_spec zdecomp unzl hx aparse). Qed.
+
+(* the whole-transfer SENDER under ANY delivered answer sequence: every file it counts as done (the
+   echo of its MD5 message accepted; [ft_send] records one [ft_done] per such file) is a file for
+   which the per-file decision model says TRUE on exactly the answers delivered for it - so
+   C02_sender_sound / C02_sender_final / C02_sender_sound_v1 describe what was delivered: every
+   frame acknowledged with its length in order, a final ack with step = size, the own digest echoed *)
+Variable zcomp : list (list byte) -> list (list byte).
+Variable zl : list byte -> list byte.
+Theorem C02_transfer_sender_bridge : forall c ess ms dn,
+  In dn (snd (ft_send digest H deq zcomp zl hx ahdr c ess ms)) -> ft_sverdict digest H deq c dn = true.
+Proof. exact (ft_send_bridge digest H deq zcomp zl hx ahdr). Qed.
 End C02.
 
 Print Assumptions C02_receiver_sound_v2.
 Print Assumptions C02_receiver_sound_v1.
-Print Assumptions C02_no_silent_v2.
+Print Assumptions C02_receiver_sound_v2_old.
+Print Assumptions C02_no_silent_v2_full.
+Print Assumptions C02_no_silent_v2_old_no_race.
+Print Assumptions C02_no_silent_v2_old_true_size.
 Print Assumptions C02_no_silent_v1.
 Print Assumptions C02_sender_sound.
 Print Assumptions C02_sender_final.
+Print Assumptions C02_sender_sound_v1.
+Print Assumptions C02_transfer_ghost_transparent.
+Print Assumptions C02_transfer_answer_only_md5.
+Print Assumptions C02_transfer_bridge.
+Print Assumptions C02_transfer_receiver_sound.
+Print Assumptions C02_transfer_saved_on_fs.
+Print Assumptions C02_transfer_no_silent.
+Print Assumptions C02_transfer_sender_bridge.
 
 (* non-vacuity: with digest = the content itself, a clean two-frame exchange is accepted *)
 Example C02_nonvacuous :
-  recv_v2 (list byte) (fun x => x) list_eqb (fun x => Some x) 3 []
+  recv_v2 (list byte) (fun x => x) list_eqb (fun fs => Some (concat fs)) None 3 []
     [LData _ [1; 2]; LData _ [3]; LData _ []; LMd5 _ [1; 2; 3]] = Accept [1; 2; 3].
 Proof. vm_compute. reflexivity. Qed.
 (* and a flipped payload byte with an intact digest line is rejected *)
 Example C02_flip_rejected :
-  recv_v2 (list byte) (fun x => x) list_eqb (fun x => Some x) 3 []
+  recv_v2 (list byte) (fun x => x) list_eqb (fun fs => Some (concat fs)) None 3 []
     [LData _ [1; 7]; LData _ [3]; LData _ []; LMd5 _ [1; 2; 3]] = Reject.
 Proof. vm_compute. reflexivity. Qed.
+
+(* non-vacuity of the whole-transfer statements: protocol 2, binary frames (no table, no
+   compression), plain names, download; digest = the content itself.  A clean delivery of
+   NUM NAME SIZE DATA DATA finish MD5 records one saved file with the bytes delivered ... *)
+Example C02_transfer_nonvacuous :
+  let c := mkTrCfg 2 true false false 0 [] false in
+  let f0 : fs := [([[100]], Dir)] in
+  let ms := [TrNum _ 1; TrName _ (TrPlain [97]); TrSize _ 3; TrData _ [1; 2]; TrKeepAlive _; TrData _ [3]; TrData _ [];
+             TrMd5 _ [1; 2; 3]] in
+  let r := ft_receive (list byte) (fun x => x) list_eqb (fun x => Some x) (fun x => Some x) (fun x => x) (fun _ => None) c [[100]] f0 [] ms in
+  (rs_phase (fst (fst r)), map (fun sv => (fv_size _ sv, fv_content _ sv, fv_md5 _ sv)) (snd r),
+   lookup (st_fs (rs_st (fst (fst r)))) [[100]; [97]]) =
+  (RpDone, [(3%N, [1; 2; 3], [1; 2; 3])], Some (File [1; 2; 3])).
+Proof. vm_compute. reflexivity. Qed.
+(* ... a flipped payload byte with an intact MD5 message records nothing and ends in the failure phase ... *)
+Example C02_transfer_flip_rejected :
+  let c := mkTrCfg 2 true false false 0 [] false in
+  let f0 : fs := [([[100]], Dir)] in
+  let ms := [TrNum _ 1; TrName _ (TrPlain [97]); TrSize _ 3; TrData _ [1; 7]; TrData _ [3]; TrData _ [];
+             TrMd5 _ [1; 2; 3]] in
+  let r := ft_receive (list byte) (fun x => x) list_eqb (fun x => Some x) (fun x => Some x) (fun x => x) (fun _ => None) c [[100]] f0 [] ms in
+  (rs_phase (fst (fst r)), snd r) = (RpFail, []).
+Proof. vm_compute. reflexivity. Qed.
+(* ... a dropped frame (size 3 announced, 2 bytes delivered) with an MD5 message forged to the digest
+   of the damaged content is still refused by protocol >= 2 (pipelineSaveData's step = size) ... *)
+Example C02_transfer_short_rejected :
+  let c := mkTrCfg 2 true false false 0 [] false in
+  let f0 : fs := [([[100]], Dir)] in
+  let ms := [TrNum _ 1; TrName _ (TrPlain [97]); TrSize _ 3; TrData _ [1; 2]; TrData _ []; TrMd5 _ [1; 2]] in
+  let r := ft_receive (list byte) (fun x => x) list_eqb (fun x => Some x) (fun x => Some x) (fun x => x) (fun _ => None) c [[100]] f0 [] ms in
+  (rs_phase (fst (fst r)), snd r) = (RpFail, []).
+Proof. vm_compute. reflexivity. Qed.
+(* ... and protocol 1 (every chunk decoded on its own, the loop may overshoot the announced size):
+   a duplicated chunk with an MD5 message forged to the digest of the longer content IS accepted —
+   the size is only a lower bound there, which is why the digest hypotheses carry the statement *)
+Example C02_transfer_v1_overshoot :
+  let c := mkTrCfg 0 true false false 0 [] false in
+  let f0 : fs := [([[100]], Dir)] in
+  let ms := [TrNum _ 1; TrName _ (TrPlain [97]); TrSize _ 3; TrData _ [1; 2]; TrData _ [1; 2]; TrMd5 _ [1; 2; 1; 2]] in
+  let r := ft_receive (list byte) (fun x => x) list_eqb (fun x => Some x) (fun x => Some x) (fun x => x) (fun _ => None) c [[100]] f0 [] ms in
+  (rs_phase (fst (fst r)), map (fun sv => (fv_size _ sv, fv_content _ sv)) (snd r)) = (RpDone, [(3%N, [1; 2; 1; 2])]).
+Proof. vm_compute. reflexivity. Qed.
+
+(* ------------------------------------------------------------------------------------------
+   The resume exchange (protocol >= 3, overwrite onto a non-empty destination) is not part of the machine
+   of Model/Transfer.v (RpUnmodelled); its model is Model/Resume.v (C08) and, with an ARBITRARY list of
+   answers delivered to the sender, Model/FaultResume.v.  The digest and the size of the data phase cover
+   only what is transmitted, not the kept prefix; what keeps the two ends from continuing at different
+   offsets is the receiver-side check of fix 75b62fe (announced size = source size - the receiver's own
+   offset; read from the source: Consts.c02_resume_rest_check).  With it: whatever answers are delivered,
+   a completed exchange leaves both ends at the same offset and the destination identical to the source
+   (collision-freeness on the compared prefixes, as in C08).
+   Scope: the answers (receiver -> sender) are arbitrary; the HASH records and, for protocol 3, the SIZE
+   line in front of them are taken as sent (a forged HASH record is the digest hypothesis of C08 again). *)
+Theorem C02_resume_full :
+  forall (B : N) (Hh : list byte -> Resume.digest) (src dst : list byte) (delivered : list Resume.ack) o,
+    (0 < B)%N ->
+    Proofs.Resume.collision_free Hh src dst ->
+    FaultResume.fr_run B Hh src dst delivered = Some o ->
+    FaultResume.fo_mrecv o = FaultResume.fo_msend o /\ FaultResume.fo_final o = src.
+Proof. intros B Hh src dst delivered o HB. exact (Proofs.FaultResume.fr_run_identical B Hh HB src dst delivered o). Qed.
+Print Assumptions C02_resume_full.
+
+(* the lost answer of the old witness is now an error (nothing is reported as saved) *)
+Example C02_resume_lost_answer_refused :
+  FaultResume.fr_run 2%N (fun x => x) [1; 2; 3; 4; 5] [1; 2; 9; 9]
+    (tl (FaultResume.fr_answers 2%N (fun x => x) [1; 2; 3; 4; 5] [1; 2; 9; 9])) = None /\
+  exists o, FaultResume.fr_run 2%N (fun x => x) [1; 2; 3; 4; 5] [1; 2; 9; 9]
+              (FaultResume.fr_answers 2%N (fun x => x) [1; 2; 3; 4; 5] [1; 2; 9; 9]) = Some o /\
+            FaultResume.fo_final o = [1; 2; 3; 4; 5].
+Proof. split; [vm_compute; reflexivity | eexists; split; vm_compute; reflexivity]. Qed.
+
+(* the code before 75b62fe ([fr_run_old]): block size 2, source 1 2 3 4 5, destination 1 2 9 9; the
+   receiver answers (2, match) (4, no match); the FIRST answer is lost on the way: the sender restarts
+   from 0, the receiver keeps 2 bytes and appends: 1 2 1 2 3 4 5 was reported as saved *)
+Theorem C02_resume_old_refuted :
+  exists (B : N) (Hh : list byte -> Resume.digest) (src dst : list byte) (delivered : list Resume.ack) o,
+    (0 < B)%N /\ (forall x y, Hh x = Hh y -> x = y) /\
+    delivered = tl (FaultResume.fr_answers B Hh src dst) /\      (* one whole line dropped *)
+    FaultResume.fr_run_old B Hh src dst delivered = Some o /\
+    recv_v2 Resume.digest Hh list_eqb (fun fs => Some (concat fs)) None (Z.of_nat (length (FaultResume.fo_sent o))) []
+      [LData _ (FaultResume.fo_sent o); LData _ []; LMd5 _ (Hh (FaultResume.fo_sent o))] = Accept (FaultResume.fo_sent o) /\
+    FaultResume.fo_mrecv o <> FaultResume.fo_msend o /\
+    FaultResume.fo_final o <> src.
+Proof.
+  exists 2%N, (fun x => x), [1; 2; 3; 4; 5], [1; 2; 9; 9], [Resume.mkAck 4 false],
+    (FaultResume.mkFrOut 2 0 [1; 2; 3; 4; 5] [1; 2; 1; 2; 3; 4; 5]).
+  split; [reflexivity|]. split; [auto|]. split; [vm_compute; reflexivity|]. split; [vm_compute; reflexivity|].
+  split; [vm_compute; reflexivity|]. split; [discriminate | discriminate].
+Qed.
+Print Assumptions C02_resume_old_refuted.
+
+(* the sender bridge is not vacuous: protocol 2, one file of 3 bytes sent as frames of 2 and 1 bytes *)
+Example C02_transfer_sender_nonvacuous :
+  let c := mkTrCfg 2 true false false 0 [] true in
+  let e := mkTrEntry 0 [[97]] false [[1; 2; 3]] [] in
+  let ess := [(e, mkTrSched [2]%nat 1 false [] [] None [] 0 [] 1)] in
+  let ms := [TrSuccInt _ 1; TrSuccName _ [97]; TrSuccInt _ 3; TrSuccAck _ 2 0; TrKeepAlive _; TrSuccAck _ 1 3; TrSuccAck _ 0 3;
+             TrSuccInt _ 2; TrSuccInt _ 3; TrSuccDigest _ [1; 2; 3]] in
+  let r := ft_send (list byte) (fun x => x) list_eqb (fun x => x) (fun x => x) (fun x => x) (fun _ _ => []) c ess ms in
+  (ss_phase (fst (fst r)), map (fun dn => (fd_sent _ dn, length (fd_msgs _ dn))) (snd r)) = (SpDone, [([2; 1; 0]%N, 7%nat)]).
+Proof. vm_compute. reflexivity. Qed.
+
+(* ------------------------------------------------------------------------------------------
+   The race of the size check in the code before d144b66 ([recv_v2_old]).  Digest = the content itself
+   (collision-free, and the MD5 message is the GENUINE one of the source [1]); the SIZE message delivered
+   says 0; the acknowledger wins before a byte is saved: the receiver answered SUCC, the file was empty.
+   The same lines are refused by [recv_v2] under every schedule. *)
+Theorem C02_no_silent_v2_old_refuted :
+  exists (early : option nat) (ls : list (line (list byte))) (size : Z) (src w : list byte),
+    recv_v2_old (list byte) (fun x => x) list_eqb (fun fs => Some (concat fs)) early size [] ls = Accept w /\
+    (forall d, md5_of (list byte) ls = Some d -> unforged (list byte) (fun x => x) src w d) /\
+    collision_free_on (list byte) (fun x => x) src w /\
+    md5_of (list byte) ls = Some src /\                 (* the digest delivered is the source's *)
+    w <> src /\
+    recv_v2 (list byte) (fun x => x) list_eqb (fun fs => Some (concat fs)) early size [] ls = Reject.
+Proof.
+  exists (Some 0%nat), [LData _ [1]; LData _ []; LMd5 _ [1]], 0%Z, [1], [].
+  split; [vm_compute; reflexivity|]. split; [|split; [|split; [reflexivity | split; [discriminate | vm_compute; reflexivity]]]].
+  - intros d M. cbn in M. inversion M; subst d. unfold unforged. discriminate.
+  - unfold collision_free_on. discriminate.
+Qed.
+Print Assumptions C02_no_silent_v2_old_refuted.
